@@ -11,6 +11,7 @@ import (
 	"path/filepath"
 	"reflect"
 	"runtime"
+	"sort"
 	"strconv"
 	"strings"
 	"sync"
@@ -201,7 +202,10 @@ func genC12(c *Ctx) {
 		}
 	}
 	cmpList := func(name string, got, want []string) {
-		if !reflect.DeepEqual(got, want) {
+		sortedCopy := func(l []string) []string { c := append([]string{}, l...); sort.Strings(c); return c }
+		// same members with the same multiplicity (the ORDER of the generated tables is the generator's business: it is
+		// pinned by "re-running the generator reproduces the committed files", not by this comparison)
+		if !reflect.DeepEqual(sortedCopy(got), sortedCopy(want)) {
 			gs, ws := map[string]bool{}, map[string]bool{}
 			for _, x := range got {
 				gs[x] = true
@@ -221,12 +225,12 @@ func genC12(c *Ctx) {
 				}
 			}
 			if len(d) == 0 {
-				d = []string{"same members, different order or multiplicity"}
+				d = []string{"same members, different multiplicity"}
 			}
 			if len(d) > 6 {
 				d = d[:6]
 			}
-			c.fail(name, "cmd/*.json", strings.Join(d, "; "), "exactly the ids of the JSON file", "partition of cmd/licenses.json / cmd/exceptions.json by isDeprecatedLicenseId, in file order")
+			c.fail(name, "cmd/*.json", strings.Join(d, "; "), "exactly the ids of the JSON file", "partition of cmd/licenses.json / cmd/exceptions.json by isDeprecatedLicenseId")
 		}
 	}
 	cmpList("spdxlicenses.GetLicenses", tActive, wantA)
@@ -798,7 +802,9 @@ func rep(s, sep string, n int) string {
 var families = []family{
 	{"and_chain", func(n int) (string, []string) { return rep("MIT", " AND ", n), []string{"MIT"} }},
 	{"or_chain", func(n int) (string, []string) { return rep("MIT", " OR ", n), []string{"ISC"} }},
-	{"nesting", func(n int) (string, []string) { return strings.Repeat("(", n) + "MIT" + strings.Repeat(")", n), []string{"MIT"} }},
+	{"nesting", func(n int) (string, []string) {
+		return strings.Repeat("(", n) + "MIT" + strings.Repeat(")", n), []string{"MIT"}
+	}},
 	{"and_of_ors", func(n int) (string, []string) { return rep("(MIT OR ISC)", " AND ", n), []string{"Apache-2.0"} }},
 	{"and_of_ors_distinct", func(n int) (string, []string) {
 		p := make([]string, n)
@@ -837,14 +843,26 @@ var families = []family{
 	{"long_id", func(n int) (string, []string) { return "MIT AND " + strings.Repeat("A", n*8), []string{"MIT"} }},
 	// identifiers with many separators (hand-written or backtracking id matchers)
 	{"dotted_ref", func(n int) (string, []string) { return "LicenseRef-" + strings.Repeat("a.", n) + "a", []string{"MIT"} }},
-	{"dashed_ref", func(n int) (string, []string) { return "MIT OR LicenseRef-" + strings.Repeat("a-", n) + "a", []string{"MIT"} }},
-	{"dotted_docref", func(n int) (string, []string) { return "DocumentRef-" + strings.Repeat("a.", n) + "a:LicenseRef-" + strings.Repeat("b.-", n/2) + "b", []string{"MIT"} }},
+	{"dashed_ref", func(n int) (string, []string) {
+		return "MIT OR LicenseRef-" + strings.Repeat("a-", n) + "a", []string{"MIT"}
+	}},
+	{"dotted_docref", func(n int) (string, []string) {
+		return "DocumentRef-" + strings.Repeat("a.", n) + "a:LicenseRef-" + strings.Repeat("b.-", n/2) + "b", []string{"MIT"}
+	}},
 	{"dotted_unknown", func(n int) (string, []string) { return "MIT AND " + strings.Repeat("a.", n) + "a!", []string{"MIT"} }},
-	{"dotted_allowed", func(n int) (string, []string) { return "MIT", []string{"MIT", "LicenseRef-" + strings.Repeat("1.0-", n) + "x"} }},
+	{"dotted_allowed", func(n int) (string, []string) {
+		return "MIT", []string{"MIT", "LicenseRef-" + strings.Repeat("1.0-", n) + "x"}
+	}},
 	// exceptions: one WITH term first / last / everywhere in a long chain
-	{"with_first_or_chain", func(n int) (string, []string) { return "GPL-2.0-only WITH Classpath-exception-2.0 OR " + rep("MIT", " OR ", n), []string{"ISC", "GPL-2.0-only WITH Bison-exception-2.2"} }},
-	{"with_first_and_chain", func(n int) (string, []string) { return "GPL-2.0-only WITH Classpath-exception-2.0 AND " + rep("MIT", " AND ", n), []string{"MIT", "GPL-2.0-only WITH Classpath-exception-2.0"} }},
-	{"with_everywhere", func(n int) (string, []string) { return rep("GPL-2.0-or-later WITH Classpath-exception-2.0", " OR ", n), []string{"MIT"} }},
+	{"with_first_or_chain", func(n int) (string, []string) {
+		return "GPL-2.0-only WITH Classpath-exception-2.0 OR " + rep("MIT", " OR ", n), []string{"ISC", "GPL-2.0-only WITH Bison-exception-2.2"}
+	}},
+	{"with_first_and_chain", func(n int) (string, []string) {
+		return "GPL-2.0-only WITH Classpath-exception-2.0 AND " + rep("MIT", " AND ", n), []string{"MIT", "GPL-2.0-only WITH Classpath-exception-2.0"}
+	}},
+	{"with_everywhere", func(n int) (string, []string) {
+		return rep("GPL-2.0-or-later WITH Classpath-exception-2.0", " OR ", n), []string{"MIT"}
+	}},
 	{"with_distinct_chain", func(n int) (string, []string) {
 		p := make([]string, n)
 		for i := range p {
@@ -884,10 +902,16 @@ var families = []family{
 	}},
 	// repeated identical sub-expressions, invalid tails, runs of one byte
 	{"repeated_group", func(n int) (string, []string) { return rep("(MIT AND (ISC OR Zlib))", " OR ", n), []string{"Zlib"} }},
-	{"twin_groups", func(n int) (string, []string) { return rep("(MIT OR ISC AND Zlib) AND (MIT AND ISC OR Zlib)", " AND ", n/2+1), []string{"MIT", "Zlib"} }},
+	{"twin_groups", func(n int) (string, []string) {
+		return rep("(MIT OR ISC AND Zlib) AND (MIT AND ISC OR Zlib)", " AND ", n/2+1), []string{"MIT", "Zlib"}
+	}},
 	{"invalid_tail", func(n int) (string, []string) { return rep("MIT", " AND ", n) + " AND", []string{"MIT"} }},
-	{"unknown_ids", func(n int) (string, []string) { return rep("MIT", " OR ", n) + " OR NOT-A-LICENSE-" + strings.Repeat("x", n), []string{"MIT"} }},
-	{"spaces", func(n int) (string, []string) { return "MIT" + strings.Repeat(" ", n*8) + "AND" + strings.Repeat(" ", n*8) + "ISC", []string{"MIT", "ISC"} }},
+	{"unknown_ids", func(n int) (string, []string) {
+		return rep("MIT", " OR ", n) + " OR NOT-A-LICENSE-" + strings.Repeat("x", n), []string{"MIT"}
+	}},
+	{"spaces", func(n int) (string, []string) {
+		return "MIT" + strings.Repeat(" ", n*8) + "AND" + strings.Repeat(" ", n*8) + "ISC", []string{"MIT", "ISC"}
+	}},
 	{"plus_run", func(n int) (string, []string) { return "GPL-2.0" + strings.Repeat("+", n), []string{"MIT"} }},
 	{"open_parens", func(n int) (string, []string) { return strings.Repeat("(", n) + "MIT", []string{"MIT"} }},
 	{"case_mixed_rewrites", func(n int) (string, []string) { return rep("apache-2.0-OR-LATER", " or ", n), []string{"APACHE-1.0+"} }},
@@ -935,14 +959,14 @@ func c14child(args []string) {
 }
 
 type c14row struct {
-	Family       string `json:"family"`
-	N            int    `json:"n"`
-	Size         int    `json:"input_bytes"`
-	SatAlloc     int64  `json:"satisfies_alloc_bytes"`
-	SatNs        int64  `json:"satisfies_ns"`
-	ExtAlloc     int64  `json:"extract_alloc_bytes"`
-	ExtNs        int64  `json:"extract_ns"`
-	Status       string `json:"status"`
+	Family   string `json:"family"`
+	N        int    `json:"n"`
+	Size     int    `json:"input_bytes"`
+	SatAlloc int64  `json:"satisfies_alloc_bytes"`
+	SatNs    int64  `json:"satisfies_ns"`
+	ExtAlloc int64  `json:"extract_alloc_bytes"`
+	ExtNs    int64  `json:"extract_ns"`
+	Status   string `json:"status"`
 }
 
 func runC14(c *Ctx, out string) {
@@ -994,9 +1018,9 @@ func runC14(c *Ctx, out string) {
 				} else {
 					row.Status = "child failed: " + strings.TrimSpace(ob.String())
 				}
-			case <-time.After(20 * time.Second):
+			case <-time.After(60 * time.Second):
 				cmd.Process.Kill()
-				row.Status = "time budget of 20 s exceeded"
+				row.Status = "time budget of 60 s exceeded"
 			}
 			res[ji] = row
 		}(ji, j)
@@ -1013,15 +1037,24 @@ func runC14(c *Ctx, out string) {
 		for i, r := range rs {
 			args := map[string]interface{}{"family": r.Family, "n": r.N, "input_bytes": r.Size}
 			if r.Status != "ok" {
-				cc.fail("Satisfies/ExtractLicenses", args, r.Status, "completion within 1.5 GB and 20 s", "single call in a child process")
+				cc.fail("Satisfies/ExtractLicenses", args, r.Status, "completion within 1.5 GB and 60 s", "single call in a child process")
 				continue
 			}
 			// absolute: a few hundred bytes must not allocate hundreds of megabytes or run for seconds
-			if r.Size <= 2000 && (r.SatAlloc > 256<<20 || r.ExtAlloc > 256<<20 || r.SatNs > 2e9 || r.ExtNs > 2e9) {
-				cc.fail("Satisfies/ExtractLicenses", args, fmt.Sprintf("alloc %d / %d bytes, %d / %d ns", r.SatAlloc, r.ExtAlloc, r.SatNs, r.ExtNs), "<= 256 MB and <= 2 s for an input of <= 2000 bytes", "runtime.MemStats.TotalAlloc delta and wall time of one call")
+			if r.Size <= 2000 && (r.SatAlloc > 1<<30 || r.ExtAlloc > 1<<30 || r.SatNs > 10e9 || r.ExtNs > 10e9) {
+				cc.fail("Satisfies/ExtractLicenses", args, fmt.Sprintf("alloc %d / %d bytes, %d / %d ns", r.SatAlloc, r.ExtAlloc, r.SatNs, r.ExtNs), "no gigabytes and no 10 s for an input of <= 2000 bytes", "runtime.MemStats.TotalAlloc delta and wall time of one call (the usual figures are kilobytes and milliseconds)")
 			}
-			if i > 0 && rs[i-1].Status == "ok" {
-				p := rs[i-1]
+			// compare with the largest earlier size that is at most half of this one (a buffer that doubles between two
+			// neighbouring sizes must not look like super-cubic growth)
+			pi := -1
+			for j := i - 1; j >= 0; j-- {
+				if rs[j].Status == "ok" && rs[j].N*2 <= r.N {
+					pi = j
+					break
+				}
+			}
+			if pi >= 0 {
+				p := rs[pi]
 				// growth of the input: bytes, or the family parameter when a constant prefix dominates the small sizes
 				grow := float64(r.Size) / float64(p.Size)
 				if g2 := float64(r.N) / float64(p.N); g2 > grow {
@@ -1200,21 +1233,19 @@ func evalDeep(kind string, n string) string {
 	go func() { done <- cmd.Wait() }()
 	select {
 	case <-done:
-	case <-time.After(600 * time.Second):
+	case <-time.After(900 * time.Second):
 		cmd.Process.Kill()
-		return "D CRASH no answer within 600 s"
+		return "D no-answer-within-900s" // slow is not a crash: C03 is about returning normally, cost is C14's subject
 	}
 	if strings.Contains(ob.String(), "DEEP-DONE") {
 		return "D returns"
 	}
-	msg := "process died"
 	for _, l := range strings.Split(eb.String(), "\n") {
 		if strings.HasPrefix(l, "fatal error") || strings.HasPrefix(l, "panic") {
-			msg = strings.ReplaceAll(l, " ", "_")
-			break
+			return "D CRASH " + strings.ReplaceAll(l, " ", "_")
 		}
 	}
-	return "D CRASH " + msg
+	return "D killed-or-out-of-memory" // no runtime message: the process was killed from outside (memory limit), not a panic
 }
 
 var deepOnce sync.Once
@@ -1225,7 +1256,7 @@ func deepProbes(c *Ctx) {
 	deepOnce.Do(func() {
 		cases := [][2]string{{"open", "3000000"}, {"nest", "2500000"}}
 		if c.thorough() {
-			cases = append(cases, [2]string{"open", "8000000"}, [2]string{"nest", "6000000"}, [2]string{"close", "3000000"}, [2]string{"nest_or", "1500000"}, [2]string{"and", "1500000"}, [2]string{"or", "1500000"})
+			cases = append(cases, [2]string{"open", "5000000"}, [2]string{"nest", "4000000"}, [2]string{"close", "3000000"}, [2]string{"nest_or", "800000"}, [2]string{"and", "1000000"}, [2]string{"or", "1000000"})
 		}
 		var wg sync.WaitGroup
 		var mu sync.Mutex
